@@ -12,7 +12,7 @@ WEIGHTS = dict(SetType=1, EditEntry=1, EditMembers=1, SetPlatform=4, SetPortNr=2
 
 def run(tier, seed):
     rng = random.Random(seed * 141650939 + 17)
-    mcs = [core.mc("MC_Acl", "MC_Acl" if tier == "quick" else "MC_Acl_4"),
+    mcs = [core.mc("MC_Acl", "MC_Acl" if tier == "quick" else "MC_Acl_4"), core.mc("MC_Acl", "MC_Acl_deep"),
            core.mc("MC_Acl", "MC_Acl_deviation", expect_violation="P_C19_DeviationExists")]
     n = 1500 if tier == "quick" else 12000
     jobs = [aclhist.make_history(rng, t, WEIGHTS, nops=rng.randint(2, 10 if tier == "quick" else 25)) for t in range(1, n + 1)]
